@@ -1,0 +1,135 @@
+//go:build verif
+// +build verif
+
+package bfe_server
+
+// Hook for the out-of-tree verification harness of property C27 (build tag verif).  Add-only.
+// It reads ONE request with the real conn.readRequest from an in-memory net.Conn, creates the real
+// response with newResponse, lets a scripted handler act on it (Header().Set/Add, WriteHeader,
+// Write, Flush) and runs the real finishRequest.  Nothing of the framing logic is re-implemented here.
+
+import (
+	"bytes"
+	"io"
+	"net"
+	"sync"
+	"time"
+)
+
+import (
+	"github.com/bfenetworks/bfe/bfe_module"
+)
+
+// verifC27Conn is an in-memory net.Conn: reads come from a fixed input, writes are recorded.
+type verifC27Conn struct {
+	in     *bytes.Reader
+	out    bytes.Buffer
+	closed bool
+}
+
+func (c *verifC27Conn) Read(p []byte) (int, error) {
+	if c.closed {
+		return 0, io.ErrClosedPipe
+	}
+	return c.in.Read(p)
+}
+func (c *verifC27Conn) Write(p []byte) (int, error) {
+	if c.closed {
+		return 0, io.ErrClosedPipe
+	}
+	return c.out.Write(p)
+}
+func (c *verifC27Conn) Close() error { c.closed = true; return nil }
+func (c *verifC27Conn) LocalAddr() net.Addr {
+	return &net.TCPAddr{IP: net.IPv4(127, 0, 0, 1), Port: 8080}
+}
+func (c *verifC27Conn) RemoteAddr() net.Addr {
+	return &net.TCPAddr{IP: net.IPv4(127, 0, 0, 2), Port: 40000}
+}
+func (c *verifC27Conn) SetDeadline(t time.Time) error      { return nil }
+func (c *verifC27Conn) SetReadDeadline(t time.Time) error  { return nil }
+func (c *verifC27Conn) SetWriteDeadline(t time.Time) error { return nil }
+
+var verifC27Once sync.Once
+var verifC27Status *ServerStatus
+
+func verifC27Server(keepAlive bool) *BfeServer {
+	verifC27Once.Do(func() { verifC27Status = NewServerStatus() })
+	srv := new(BfeServer)
+	srv.serverStatus = verifC27Status
+	srv.BufioCache = NewBufioCache()
+	srv.ReverseProxy = NewReverseProxy(srv, verifC27Status.ProxyState)
+	srv.CallBacks = bfe_module.NewBfeCallbacks()
+	srv.MaxHeaderBytes = 1 << 20
+	srv.MaxHeaderUriBytes = 8 * 1024
+	srv.SetKeepAlivesEnabled(keepAlive)
+	return srv
+}
+
+// VerifC27Action is one step of the scripted handler.
+//   'S' Header().Set(Key,Val)   'A' Header().Add(Key,Val)   'H' WriteHeader(Code)
+//   'W' Write(Data)             'F' Flush()
+type VerifC27Action struct {
+	Kind byte
+	Key  string
+	Val  string
+	Code int
+	Data []byte
+}
+
+// VerifC27Result is what the client side of the connection and the serve loop would see.
+type VerifC27Result struct {
+	ReadErr         string // non-empty: the request could not be read (case is outside C27)
+	Out             []byte // bytes written to the client connection
+	CloseAfterReply bool   // response.closeAfterReply after finishRequest
+	LimitHit        bool   // response.requestBodyLimitHit
+	WriteRes        []int  // per 'W' action: 0 ok, 1 ErrBodyNotAllowed, 2 ErrContentLength, 3 other error
+	BodyLeft        int    // request bytes not consumed from the connection's buffered reader
+}
+
+// VerifC27Run performs one request/response exchange on a fresh connection.
+func VerifC27Run(input []byte, keepAlive bool, script []VerifC27Action) VerifC27Result {
+	var res VerifC27Result
+	fc := &verifC27Conn{in: bytes.NewReader(input)}
+	srv := verifC27Server(keepAlive)
+	c, _ := newConn(fc, srv)
+	rd := c.buf.Reader
+	base := rd.TotalRead
+	request, err := c.readRequest()
+	if err != nil {
+		res.ReadErr = err.Error()
+		return res
+	}
+	w := newResponse(c, request.HttpRequest)
+	for _, a := range script {
+		switch a.Kind {
+		case 'S':
+			w.Header().Set(a.Key, a.Val)
+		case 'A':
+			w.Header().Add(a.Key, a.Val)
+		case 'H':
+			w.WriteHeader(a.Code)
+		case 'F':
+			w.Flush()
+		case 'W':
+			_, err := w.Write(a.Data)
+			switch err {
+			case nil:
+				res.WriteRes = append(res.WriteRes, 0)
+			case ErrBodyNotAllowed:
+				res.WriteRes = append(res.WriteRes, 1)
+			case ErrContentLength:
+				res.WriteRes = append(res.WriteRes, 2)
+			default:
+				res.WriteRes = append(res.WriteRes, 3)
+			}
+		}
+	}
+	w.finishRequest()
+	res.CloseAfterReply = w.closeAfterReply
+	res.LimitHit = w.requestBodyLimitHit
+	res.BodyLeft = len(input) - (rd.TotalRead - base)
+	c.finalFlush()
+	res.Out = append([]byte(nil), fc.out.Bytes()...)
+	return res
+}
